@@ -217,9 +217,11 @@ class MultiportXORMemory(BaseMultiportMemory):
         for index, write_port in enumerate(self.write_ports):
             m.d.sync += [write_regs_data[index].eq(write_port.data), write_regs_addr[index].eq(write_port.addr)]
             write_xors[index] ^= write_regs_data[index]
+            # feedback banks mirror the read block of this port, including its initial content
+            init = self.init if index == 0 else []
             for i in range(len(self.write_ports) - 1):
                 mem = memory.Memory(
-                    shape=self.shape, depth=self.depth, init=[], attrs=self.attrs, src_loc_at=self.src_loc
+                    shape=self.shape, depth=self.depth, init=init, attrs=self.attrs, src_loc_at=self.src_loc
                 )
                 mem_name = f"memory_{index}_{i}"
                 m.submodules[mem_name] = mem
